@@ -26,9 +26,36 @@ type Txn struct {
 	overlay map[string]tla.Value
 	choose  func(n int, label string) int
 	Self    tla.Value
+	Dev     int // deviations from the default environment answers made by this attempt
+
+	// read/write tracking for transition memoisation (see memo.go)
+	reads       []readRec
+	readSeen    map[rwKey]bool
+	written     map[rwKey]bool
+	wops        []wop
+	uncacheable bool
 }
 
-func (t *Txn) Get(name string) tla.Value {
+type rwKey struct{ name, idx string }
+
+// readRec is an *input* of the attempt: the committed value of a global (idx zero Value) or of one
+// element of an indexed global, read before the attempt wrote it.
+type readRec struct {
+	key    rwKey
+	idx    tla.Value
+	mapped bool
+	v      tla.Value
+}
+
+// wop is one write of the attempt, at the granularity it was made.
+type wop struct {
+	name   string
+	idx    tla.Value
+	mapped bool
+	v      tla.Value
+}
+
+func (t *Txn) getRaw(name string) tla.Value {
 	if v, ok := t.overlay[name]; ok {
 		return v
 	}
@@ -39,15 +66,60 @@ func (t *Txn) Get(name string) tla.Value {
 	return v
 }
 
-func (t *Txn) Set(name string, v tla.Value) {
+func (t *Txn) setRaw(name string, v tla.Value) {
 	if t.overlay == nil {
 		t.overlay = map[string]tla.Value{}
 	}
 	t.overlay[name] = v
 }
 
+func (t *Txn) noteRead(k rwKey, idx tla.Value, mapped bool, v tla.Value) {
+	if t.written[k] || t.written[rwKey{k.name, ""}] || t.readSeen[k] {
+		return
+	}
+	if t.readSeen == nil {
+		t.readSeen = map[rwKey]bool{}
+	}
+	t.readSeen[k] = true
+	t.reads = append(t.reads, readRec{k, idx, mapped, v})
+}
+
+func (t *Txn) noteWrite(k rwKey, idx tla.Value, mapped bool, v tla.Value) {
+	if t.written == nil {
+		t.written = map[rwKey]bool{}
+	}
+	t.written[k] = true
+	t.wops = append(t.wops, wop{k.name, idx, mapped, v})
+}
+
+// Get reads a whole global on behalf of a mapping macro (e.g. a macro that looks at other variables).
+func (t *Txn) Get(name string) tla.Value {
+	if _, dirty := t.overlay[name]; dirty && !t.written[rwKey{name, ""}] {
+		t.uncacheable = true // whole read of a variable this attempt wrote element-wise
+	}
+	v := t.getRaw(name)
+	t.noteRead(rwKey{name, ""}, tla.Value{}, false, v)
+	return v
+}
+
+// Set writes a whole global on behalf of a mapping macro.
+func (t *Txn) Set(name string, v tla.Value) {
+	t.noteWrite(rwKey{name, ""}, tla.Value{}, false, v)
+	t.setRaw(name, v)
+}
+
 // Choose resolves a `with x \in S` / either of a mapping macro (enumerated exhaustively by Succ).
 func (t *Txn) Choose(n int, label string) int { return t.choose(n, label) }
+
+// Deviate is Choose where every answer other than 0 (the default environment answer) costs one
+// unit of the search's deviation budget.
+func (t *Txn) Deviate(n int, label string) int {
+	k := t.choose(n, label)
+	if k != 0 {
+		t.Dev++
+	}
+	return k
+}
 
 func (t *Txn) commit() {
 	if len(t.overlay) == 0 {
@@ -110,27 +182,32 @@ func Var(t *Txn, name string, indexed bool, r ReadFn, w WriteFn) distsys.Archety
 }
 
 func (e *envRes) cur() tla.Value {
-	v := e.t.Get(e.name)
+	v := e.t.getRaw(e.name)
 	if e.mapped {
 		if len(e.index) == 0 {
 			panic(fmt.Sprintf("specstep: %s[_] accessed without index", e.name))
 		}
 		v = v.ApplyFunction(e.index[0])
+		e.t.noteRead(rwKey{e.name, Canon(e.index[0])}, e.index[0], true, v)
 		// further indices (e.g. net[i][j]) are handled by the macro-free tail below
+	} else {
+		e.t.noteRead(rwKey{e.name, ""}, tla.Value{}, false, v)
 	}
 	return v
 }
 
 func (e *envRes) store(nv tla.Value) {
 	if e.mapped {
-		whole := e.t.Get(e.name)
+		whole := e.t.getRaw(e.name)
 		whole = tla.FunctionSubstitution(whole, []tla.FunctionSubstitutionRecord{{
 			Keys:  []tla.Value{e.index[0]},
 			Value: func(tla.Value) tla.Value { return nv },
 		}})
-		e.t.Set(e.name, whole)
+		e.t.noteWrite(rwKey{e.name, Canon(e.index[0])}, e.index[0], true, nv)
+		e.t.setRaw(e.name, whole)
 	} else {
-		e.t.Set(e.name, nv)
+		e.t.noteWrite(rwKey{e.name, ""}, tla.Value{}, false, nv)
+		e.t.setRaw(e.name, nv)
 	}
 }
 
